@@ -11,43 +11,64 @@ def sh(cmd, cwd=None, timeout=3600, env=None):
     e = dict(os.environ); e.update(env or {})
     p = subprocess.run(cmd, cwd=cwd, shell=True, stdout=subprocess.PIPE, stderr=subprocess.STDOUT, text=True, timeout=timeout, env=e)
     return p.returncode, p.stdout
-cid, k, filt = sys.argv[1], sys.argv[2], sys.argv[3]
-checks = sys.argv[4:] or [cid.upper()]
+phase = sys.argv[1]          # confirm | check
+cid, k, filt = sys.argv[2], sys.argv[3], sys.argv[4]
+checks = sys.argv[5:] or [cid.upper()]
+dst = f"/verif/seeded/{cid.upper()}-{k}"
 src = f"/root/seed/{cid}/{k}"
 wt = f"/root/scratch/seed-{cid}-{k}"
 tgt = f"/root/seedwt/{cid}/target" if os.path.isdir(f"/root/seedwt/{cid}/target") else "/root/scratch/seed-target"
 env = {"CARGO_TARGET_DIR": tgt, "CARGO_NET_OFFLINE": "true"}
 os.makedirs("/root/scratch", exist_ok=True)
-sh(f"git -C /repo worktree remove --force {wt}")
-rc, out = sh(f"git -C /repo worktree add -q --detach {wt} HEAD")
+if phase == "confirm":
+    sh(f"git -C /repo worktree remove --force {wt}")
+    rc, out = sh(f"git -C /repo worktree add -q --detach {wt} HEAD")
 meta = {"seed": f"{cid}/{k}", "property": cid.upper(), "demo_filter": filt, "ran": []}
+if phase == "check":
+    meta = json.load(open(os.path.join(dst, "meta.json")))
 def step(name, cmd, cwd=wt):
     # an existing test of the suite occasionally spins forever (and grows): bound time and memory, retry once
     if "cargo test" in cmd:
-        cmd = "ulimit -v 12000000; timeout 900 " + cmd
+        cmd = "ulimit -v 12000000; timeout 900 bash -c " + json.dumps(cmd)
     t = time.time(); rc, out = sh(cmd, cwd, env=env)
     if "cargo test" in cmd and "test result" not in out:
         rc, out = sh(cmd, cwd, env=env)
     meta["ran"].append({"step": name, "cmd": cmd, "rc": rc, "tail": out[-600:], "s": round(time.time() - t)})
     return rc, out
 try:
+    if phase != "confirm":
+        raise StopIteration
     rc, _ = step("apply demo", f"git apply {src}/demo.diff")
     assert rc == 0, "demo.diff does not apply"
     rc, out = step("demo on clean tree", f"cargo test --offline --lib {filt} 2>&1 | tail -15")
     meta["demo_clean_pass"] = ("test result: ok" in out and " 0 passed" not in out)
-    rc, _ = step("apply patch", f"git apply {src}/patch.diff")
+    rc, _ = step("apply patch", f"git apply {src}/patch.diff || git apply -3 {src}/patch.diff")
     assert rc == 0, "patch.diff does not apply"
     rc, out = step("demo with patch", f"cargo test --offline --lib {filt} 2>&1 | tail -25")
     meta["demo_patched_fails"] = ("FAILED" in out or "failed" in out) and "test result: ok" not in out
     rc, out = step("existing suite with patch (demo removed)", f"git apply -R {src}/demo.diff && cargo test --offline --lib 2>&1 | tail -6")
     meta["suite_passes_with_patch"] = "test result: ok" in out
     meta["suite_summary"] = [l for l in out.splitlines() if "test result" in l]
+except StopIteration:
+    pass
 finally:
     sh(f"git -C /repo worktree remove --force {wt}")
+def save():
+    os.makedirs(dst, exist_ok=True)
+    for f in ("patch.diff", "demo.diff", "notes.md"):
+        shutil.copy(os.path.join(src, f), os.path.join(dst, f))
+    meta["needs"] = open(os.path.join(src, "notes.md")).read()[:1500]
+    meta["confirmed"] = bool(meta.get("demo_clean_pass") and meta.get("demo_patched_fails") and meta.get("suite_passes_with_patch"))
+    json.dump(meta, open(os.path.join(dst, "meta.json"), "w"), indent=1)
+if phase == "confirm":
+    save()
+    print(cid, k, "confirmed" if meta["confirmed"] else "NOT CONFIRMED", {x: meta.get(x) for x in ("demo_clean_pass", "demo_patched_fails", "suite_passes_with_patch")})
+    sys.exit(0)
 # run my checks against the patched /repo
 rc, st = sh("git -C /repo status --short")
 assert not st.strip(), "/repo is not clean: " + st
-rc, out = sh(f"git -C /repo apply {src}/patch.diff")
+rc, out = sh(f"git -C /repo apply {src}/patch.diff || git -C /repo apply -3 {src}/patch.diff")
+assert rc == 0, "patch does not apply to /repo: " + out
 meta["checks"] = {}
 try:
     for c in checks:
@@ -63,13 +84,6 @@ try:
                 meta["checks"][c]["replay"] = json.load(open(rp))
 finally:
     sh("git -C /repo checkout -- . && git -C /repo clean -fdq -e target")
-dst = f"/verif/seeded/{cid.upper()}-{k}"
-os.makedirs(dst, exist_ok=True)
-for f in ("patch.diff", "demo.diff", "notes.md"):
-    shutil.copy(os.path.join(src, f), os.path.join(dst, f))
-meta["needs"] = open(os.path.join(src, "notes.md")).read()[:1500]
-meta["confirmed"] = bool(meta.get("demo_clean_pass") and meta.get("demo_patched_fails") and meta.get("suite_passes_with_patch"))
-json.dump(meta, open(os.path.join(dst, "meta.json"), "w"), indent=1)
-print(json.dumps({k: meta[k] for k in ("seed", "confirmed", "demo_clean_pass", "demo_patched_fails", "suite_passes_with_patch")}, indent=0))
+save()
 for c, r in meta["checks"].items():
     print(c, "CAUGHT" if r["caught"] else "MISSED", r["violations"][:1], f"{r['s']}s")
